@@ -43,6 +43,22 @@ def unsorted_seed(r, tabs):
     return tr
 
 
+def multi_unsorted_seed(r, tabs):
+    """Three streams: the first with low clocks, the others with an unsorted region whose events belong
+    before everything else of their own stream (a per-stream tool state that leaks into the next stream
+    would show here)."""
+    tr = L.seed_trace(r, tabs, "three")
+    for sidx in (1, 2):
+        evs = tr.streams[sidx][1]
+        c0 = evs[0].clock
+        for e in evs:
+            e.clock += 500
+        k = len(evs) - 1
+        c = evs[k - 1].clock
+        evs[k:k] = [L.Ev(c + 1, "OU["), L.Ev(c0 + 3, "OB."), L.Ev(c0 + 1, "OB."), L.Ev(c0 + 2, "OB."), L.Ev(c + 2, "OU]")]
+    return tr
+
+
 def stream_mutants(r, tr, tier, res):
     out = []
     thorough = tier == "thorough"
@@ -222,6 +238,9 @@ def deep_nesting_mutants(r, tabs):
 
 def all_mutants(r, tier, tabs, res):
     muts = deep_nesting_mutants(r, tabs)
+    mtr = multi_unsorted_seed(r, tabs)
+    muts.append(Mut("control", "multi-stream unsorted seed", mtr))
+    muts += stream_mutants(r, mtr, "quick", res)[:40]
     nseeds = 2 if tier == "quick" else 6
     for i in range(nseeds):
         tr = unsorted_seed(r, tabs) if i % 3 == 1 else L.seed_trace(r, tabs, ["jumbo", "one", "models", "two"][i % 4])
